@@ -120,6 +120,8 @@ def pred(item, c):
         return ok, f'without the layer r,t = {r0!r}, {t0!r}; with it r,t = {r1!r}, {t1!r}'
     if item == 'batch':
         n = np.array(c['n'])
+        if 'k' in c:
+            n = n + 1j * np.array(c['k'])        # absorbing interior layers
         d = np.array(c['d'])
         k, bs = n.shape[0], n.shape[1:]
         st = np.stack([n, d], axis=1)
@@ -128,10 +130,77 @@ def pred(item, c):
             return False, f'batched result has shape {r.shape}, expected {bs}'
         worst = 0.0
         for idx in np.ndindex(*bs):
-            sl = [(float(n[(j,) + idx]), float(d[(j,) + idx])) for j in range(k)]
+            sl = [(n[(j,) + idx].item(), float(d[(j,) + idx])) for j in range(k)]
             rl, tl = tf.multilayer_stack_rt(sl, c['wavelength'], c['pol'], aoi=c['aoi'], ambient_index=c['ambient'])
             worst = max(worst, _rel(complex(r[idx]), complex(rl)), _rel(complex(t[idx]), complex(tl)))
         return worst <= TOL_BATCH, f'batched vs per-element loop: worst relative difference {worst!r}'
+    if item == 'defaults':
+        lay = _aslayers(c['stack'])
+        r0, t0 = tf.multilayer_stack_rt(lay, c['wavelength'], c['pol'])
+        r1, t1 = tf.multilayer_stack_rt(lay, c['wavelength'], c['pol'], aoi=0, ambient_index=1)
+        r2, t2 = tf.multilayer_stack_rt(lay, c['wavelength'], c['pol'], 0, 1)
+        e = max(_rel(complex(r0), complex(r1)), _rel(complex(t0), complex(t1)), _rel(complex(r2), complex(r1)), _rel(complex(t2), complex(t1)))
+        return e <= TOL_BATCH, f'defaults omitted vs aoi=0, ambient_index=1 (keyword and positional): {e!r}'
+    if item == 'units':
+        n0, n1, th = c['n0'], c['n1'], c['theta0_deg']
+        a = tf.snell_aor(n0, n1, th)                                   # default: degrees in
+        b = tf.snell_aor(n0, n1, math.radians(th), degrees=False)
+        a2 = tf.snell_aor(n0, n1, th, degrees=True)
+        e1 = max(abs(a - b), abs(a2 - b), abs(n1 * np.sin(a) - n0 * math.sin(math.radians(th))) / n0)
+        bd, br = tf.brewsters_angle(n0, n1), tf.brewsters_angle(n0, n1, deg=False)
+        e2 = max(abs(bd - math.degrees(br)) / 90, abs(math.tan(br) - n1 / n0) / (n1 / n0), abs(tf.brewsters_angle(n0, n1, True) - bd))
+        lo, hi = min(n0, n1), max(n0, n1)
+        e3 = 0.0
+        if lo < hi:   # library convention: critical_angle(n_rare, n_dense)
+            cd, cr = tf.critical_angle(lo, hi), tf.critical_angle(lo, hi, deg=False)
+            e3 = max(abs(cd - math.degrees(cr)) / 90, abs(math.sin(cr) - lo / hi), abs(tf.critical_angle(lo, hi, True) - cd))
+        return max(e1, e2, e3) <= TOL, (f'degrees flags: snell {e1!r}, brewster {e2!r}, critical {e3!r} '
+                                        f'(snell_aor default = {a!r} rad for {th} deg)')
+    if item == 'polcase':
+        lay = _aslayers(c['stack'])
+        worst = 0.0
+        for lo_, up in (('s', 'S'), ('p', 'P')):
+            a = tf.multilayer_stack_rt(lay, c['wavelength'], lo_, aoi=c['aoi'], ambient_index=c['ambient'])
+            b = tf.multilayer_stack_rt(lay, c['wavelength'], up, aoi=c['aoi'], ambient_index=c['ambient'])
+            worst = max(worst, _rel(complex(a[0]), complex(b[0])), _rel(complex(a[1]), complex(b[1])))
+        try:
+            tf.multilayer_stack_rt(lay, c['wavelength'], 'x', aoi=c['aoi'], ambient_index=c['ambient'])
+            return False, "polarization 'x' was accepted"
+        except ValueError:
+            pass
+        return worst <= TOL_BATCH, f"upper-case 'S'/'P' vs 's'/'p': {worst!r}"
+    if item == 'precision32':
+        from prysm.conf import config
+        lay = _aslayers(c['stack'])
+        ref = tf.multilayer_stack_rt(lay, c['wavelength'], c['pol'], aoi=c['aoi'], ambient_index=c['ambient'])
+        old = 32 if config.precision is np.float32 else 64
+        try:
+            config.precision = 32
+            got = tf.multilayer_stack_rt(lay, c['wavelength'], c['pol'], aoi=c['aoi'], ambient_index=c['ambient'])
+        finally:
+            config.precision = old
+        e = max(_rel(complex(got[0]), complex(ref[0])), _rel(complex(got[1]), complex(ref[1])))
+        return e <= 2e-4, f'config.precision = 32 vs 64: {e!r} (float32 tolerance 2e-4)'
+    if item == 'fresnel_vector':
+        n0, n1 = c['n0'], c['n1']
+        th0 = np.radians(np.array(c['thetas_deg'], dtype=float))
+        th1 = tf.snell_aor(n0, n1, th0, degrees=False)
+        worst = 0.0
+        for nm in ('fresnel_rs', 'fresnel_ts', 'fresnel_rp', 'fresnel_tp'):
+            v = getattr(tf, nm)(n0, n1, th0, th1)
+            if np.shape(v) != th0.shape:
+                return False, f'{nm} on an angle array returned shape {np.shape(v)}'
+            for i in range(len(th0)):
+                worst = max(worst, _rel(v[i], getattr(tf, nm)(n0, n1, float(th0[i]), float(th1[i]))))
+        # complex (absorbing) second medium: the algebraic identity r^2 + (n1 c1 / n0 c0) t^2 = 1 with complex squares
+        nc = complex(n1, c['kappa'])
+        for t0 in th0:
+            t1 = tf.snell_aor(n0, nc, float(t0), degrees=False)
+            fac = nc * np.cos(t1) / (n0 * math.cos(t0))
+            es = tf.fresnel_rs(n0, nc, t0, t1) ** 2 + fac * tf.fresnel_ts(n0, nc, t0, t1) ** 2
+            ep = tf.fresnel_rp(n0, nc, t0, t1) ** 2 + fac * tf.fresnel_tp(n0, nc, t0, t1) ** 2
+            worst = max(worst, abs(es - 1), abs(ep - 1))
+        return worst <= TOL, f'fresnel_* on angle arrays vs scalars, and the energy identity with a complex index: {worst!r}'
     if item == 'history':
         # the SAME caller-owned ndarray is evaluated repeatedly; results must not depend on earlier calls and the
         # caller's data must be left untouched
@@ -187,10 +256,11 @@ def _check(ctx, item, case, nontrivial=True, tag=None):
 def _gen_interface(rng):
     n0 = float(rng.choice([1.0, round(rng.uniform(1, 4), 3), round(rng.uniform(1, 4), 3)]))
     n1 = round(float(rng.uniform(1, 4)), 3)
-    lim = 89.0
+    lim = 89.9
     if n0 > n1:
-        lim = min(lim, 0.97 * math.degrees(math.asin(n1 / n0)))
-    th = float(rng.choice([0.0, round(rng.uniform(0, lim), 2), round(rng.uniform(0, lim), 2), round(lim, 2)]))
+        lim = min(lim, 0.999 * math.degrees(math.asin(n1 / n0)))   # up to 0.1 % below the critical angle
+    th = float(rng.choice([0.0, round(rng.uniform(0, lim), 2), round(rng.uniform(0, lim), 2), round(rng.uniform(0.97 * lim, lim), 3),
+                           math.floor(lim * 1000) / 1000]))
     return n0, n1, th
 
 
@@ -198,15 +268,24 @@ def _gen_stack(rng, k, absorbing=False):
     amb = float(rng.choice([1.0, round(rng.uniform(1, 2), 3)]))
     ns = [round(float(rng.uniform(1, 4)), 3) for _ in range(k)]
     wvl = round(float(rng.uniform(0.4, 2.0)), 3)
-    smax = min(0.97 * min(ns) / amb, math.sin(math.radians(89)))
+    smax = min(0.995 * min(ns) / amb, math.sin(math.radians(89.5)))
     lim = math.degrees(math.asin(smax))
-    aoi = float(rng.choice([0.0, min(0.03, lim), round(rng.uniform(0, lim), 2), round(rng.uniform(0, lim), 2)]))
+    aoi = float(rng.choice([0.0, min(0.03, lim), round(rng.uniform(0, lim), 2), round(rng.uniform(0, lim), 2),
+                            math.floor(lim * 100) / 100]))
     stack = []
     for j, n in enumerate(ns):
         ct = math.sqrt(1 - (amb * math.sin(math.radians(aoi)) / n) ** 2)
-        kind = rng.integers(0, 5)
+        kind = rng.integers(0, 7)
         if kind == 0:
             d = 0.0
+        elif kind == 5 and not absorbing and ct >= 0.6:
+            d = round(float(rng.uniform(5, 60)), 3)          # thick film: beta up to ~4e3 rad
+        elif kind == 6 and not absorbing and ct >= 0.6:
+            # substrate-like: beta up to ~6e4 rad.  Only away from grazing propagation inside the layer (cos >= 0.6): the
+            # rounding of beta is beta * eps / cos^2 and is amplified further by the finesse of the cavity the thick layer
+            # forms, so thick layers near their critical angle are ill-conditioned at the 1e-9 level for ANY float64
+            # evaluation (verified against a long-double reference: prysm 7e-10, model 3e-9 off)
+            d = round(float(rng.uniform(100, 1000)), 2)
         elif kind == 1:
             d = wvl / (4 * n * ct)
         elif kind == 2:
@@ -270,6 +349,7 @@ def correspondence(ctx):
         for pol in 'sp':
             _check(ctx, 'fresnel_energy', {**case, 'pol': pol}, nontrivial=(n0 != n1))
             _check(ctx, 'fresnel_continuity', {**case, 'pol': pol}, nontrivial=(n0 != n1))
+        _check(ctx, 'units', case, nontrivial=(n0 != n1))
         if n0 != n1:
             d = [0.0, 0.25, 1.0][int(th * 100) % 3]
             for pol in 'sp':
@@ -296,6 +376,11 @@ def correspondence(ctx):
         if not (_rel(r, complex(mr, mi)) <= TOL and _rel(t, complex(tr, ti)) <= TOL):
             ctx.disagree('stack', c, [r, t], [complex(mr, mi), complex(tr, ti)])
         _check(ctx, 'stack_energy', c, nontrivial=not triv, tag=f'k{k}/{c["pol"]}')
+        if i % 7 == 0:
+            _check(ctx, 'defaults', {'stack': c['stack'], 'wavelength': c['wavelength'], 'pol': c['pol']}, tag=f'k{k}')
+            _check(ctx, 'polcase', c, tag=f'k{k}')
+        if i % 11 == 0 and max(l[2] for l in c['stack']) <= 2.0:   # float32 cannot carry beta ~ 1e4 rad (thick layers)
+            _check(ctx, 'precision32', c, tag=f'k{k}/{c["pol"]}')
         if i % 3 == 0:
             pos = int(rng.integers(0, k))          # never after the last layer: that would change the exit medium
             extra = {'pos': pos, 'n_ins': round(float(rng.uniform(max(1.0, 1.02 * c['ambient'] * math.sin(math.radians(c['aoi']))), 4)), 3)}
@@ -315,6 +400,12 @@ def correspondence(ctx):
             ctx.disagree('stack_absorbing', c, [r, t], [complex(mr, mi), complex(tr, ti)])
         _check(ctx, 'absorbing', c, tag=f'k{len(c["stack"])}/{c["pol"]}')
 
+    for i in range(ctx.scale(40, 800) * widen):
+        n0, n1, th = _gen_interface(rng)
+        lim = 89.9 if n0 <= n1 else 0.999 * math.degrees(math.asin(n1 / n0))
+        _check(ctx, 'fresnel_vector', {'n0': n0, 'n1': n1, 'thetas_deg': [0.0, round(0.3 * lim, 2), round(0.8 * lim, 2), th],
+                                       'kappa': round(float(rng.uniform(0.01, 3)), 3)}, nontrivial=(n0 != n1))
+
     # ------------------------------------------------ batched index / thickness arrays vs the per-element loop
     shapes = [(5,), (3, 4), (1,), (2, 1), (2, 3, 2)]
     for i in range(ctx.scale(80, 3000) * widen):
@@ -328,7 +419,12 @@ def correspondence(ctx):
         aoi = float(rng.choice([0.0, round(rng.uniform(0, math.degrees(math.asin(smax))), 2)]))
         case = {'n': n.tolist(), 'd': d.tolist(), 'wavelength': round(float(rng.uniform(0.4, 2)), 3), 'pol': 'sp'[i % 2],
                 'aoi': aoi, 'ambient': amb}
-        _check(ctx, 'batch', case, tag=f'shape{bs}/k{k}/{"normal" if aoi == 0 else "oblique"}')
+        if i % 3 == 2 and k > 1:      # absorbing interior layers in the batch (the exit medium stays real)
+            kap = np.round(rng.uniform(0.0, 2.0, size=(k,) + bs), 3)
+            kap[-1] = 0.0
+            case['k'] = kap.tolist()
+            case['d'] = np.minimum(d, 0.3).tolist()
+        _check(ctx, 'batch', case, tag=f'shape{bs}/k{k}/{"normal" if aoi == 0 else "oblique"}/{"complex" if "k" in case else "real"}')
 
     # ------------------------------------------------ histories: one caller-owned ndarray, many evaluations
     hshapes = [(), (4,), (2, 3)]
@@ -379,6 +475,21 @@ def _small_scope():
         for aoi in (0.0, 35.0):
             for pol in 'sp':
                 yield 'absorbing', {'stack': st, 'wavelength': 0.55, 'pol': pol, 'aoi': aoi, 'ambient': 1.0}
+    for (n0, n1) in grid_n:
+        yield 'units', {'n0': n0, 'n1': n1, 'theta0_deg': 20.0}
+        yield 'fresnel_vector', {'n0': n0, 'n1': n1, 'thetas_deg': [0.0, 10.0, 30.0], 'kappa': 0.5}
+    for st in stacks:
+        yield 'defaults', {'stack': st, 'wavelength': 0.55, 'pol': 'p'}
+        yield 'polcase', {'stack': st, 'wavelength': 0.55, 'aoi': 20.0, 'ambient': 1.0}
+        yield 'precision32', {'stack': st, 'wavelength': 0.55, 'pol': 's', 'aoi': 20.0, 'ambient': 1.0}
+    for th_ in (1000.0, 150.0):
+        for pol in 'sp':
+            yield 'stack_energy', {'stack': [[1.38, 0.0, 0.1], [2.1, 0.0, th_], [1.5, 0.0, 10000.0]], 'wavelength': 0.55, 'pol': pol,
+                                   'aoi': 30.0, 'ambient': 1.0}
+            yield 'half_wave', {'stack': [[1.38, 0.0, 0.1], [2.1, 0.0, th_], [1.5, 0.0, 1.0]], 'wavelength': 0.55, 'pol': pol,
+                                'aoi': 30.0, 'ambient': 1.0, 'pos': 1, 'n_ins': 1.7}
+    yield 'batch', {'n': [[1.4, 1.6], [1.5, 1.5]], 'k': [[0.3, 0.7], [0.0, 0.0]], 'd': [[0.1, 0.2], [1.0, 1.0]], 'wavelength': 0.6,
+                    'pol': 's', 'aoi': 20.0, 'ambient': 1.0}
     for (nn, dd) in (([1.38, 1.5], [0.1, 1.0]), ([[1.38, 1.6], [1.5, 1.5]], [[0.1, 0.2], [1.0, 1.0]])):
         for aoi in (0.0, 30.0):
             yield 'history', {'n': nn, 'd': dd, 'pols': ['s', 'p', 's'], 'wavelengths': [0.5, 0.5, 0.5], 'aoi': aoi, 'ambient': 1.0}
@@ -460,17 +571,23 @@ MANIFEST_ENTRY = {
              'by that phase; (4) every product of lossless characteristic matrices (any number of layers, both polarisations) has '
              'the form [[p, iq],[ir, s]] with ps + qr = 1, hence |r|^2 + (n_e cos th_e / n_0 cos th_0)|t|^2 = 1 for every lossless stack '
              'of every depth with real positive ambient/exit admittances; (5) a layer with beta = 0 (thickness 0) anywhere in a '
-             'stack is the identity, a layer with beta = pi (n d cos th = lambda/2) maps r -> r, t -> -t. TRANSLATED: fresnel_rs/ts/'
-             'rp/tp, arguments of arcsin/arctan2 in snell_aor / critical_angle / brewsters_angle, beta and the four entries of '
-             'characteristic_matrix_s/p, term1/term2/term4 tables and product order of multilayer_matrix_s/p, rtot, ttot, and six '
-             'structural facts about multilayer_stack_rt (Snell from ambient, degrees->radians, argument order, exit medium = '
-             'last layer, polarisation dispatch, index/thickness columns). MODELLED AND COMPARED (1e-9): the whole '
+             'stack is the identity, a layer with beta = pi (n d cos th = lambda/2) maps r -> r, t -> -t. TRANSLATED: fresnel_rs/ts/rp/tp; arcsin / arctan2 arguments, degree<->radian conversions and flag defaults of snell_aor / '
+             'critical_angle / brewsters_angle; beta and the four entries of characteristic_matrix_s/p; term1/term2/term4 tables and '
+             'product order of multilayer_matrix_s/p; rtot, ttot; and the CALL SITES of multilayer_stack_rt as Lean definitions whose '
+             'arguments are placed as the source places them (Snell from the ambient medium into layer j, layer call (wavelength, d_j, '
+             'n_j, angle_j) per polarisation, A from ambient and the LAST layer, return (rtot A, ttot A), index/thickness columns, default '
+             'aoi / ambient); the pipeline assembled from these (pipelineS/P) is proved energy-conserving with the last layer as exit '
+             'medium, and r_p of the one-layer pipeline vanishes at Brewster. Re-bound locals the translator cannot read poison the '
+             'item (untranslatable, TIE-DEGRADED on stdout, widened sweep) instead of leaving a stale binding. '
+             'MODELLED AND COMPARED (1e-9): the whole '
              'multilayer_stack_rt pipeline incl. complex Snell angles, for stacks of 1..8 layers, oblique incidence, both '
              'polarisations, lossless and absorbing. (6) R + T <= 1 for absorbing layers is PROVED in full (the design listed it as '
              'stretch): with the complex sin/cos themselves, d/dk Re(E conj H) = Im(a)|H|^2 + Im(b)|E|^2 >= 0 inside a layer, so every '
              'layer with Im n^2 >= 0, thickness >= 0 and cos(theta) from Snell\'s law is passive, passive matrices are closed under '
              'products (any depth), and between real media |r|^2 + (n_e cos th_e/n_0 cos th_0)|t|^2 <= 1, both polarisations. '
-             'CORRESPONDENCE ONLY: batched (1-D/N-D) = per-element loop; independence of call history (the same caller-owned ndarray '
+             'Also exercised on the real code: defaults omitted, degrees / deg flags, upper-case polarisation and rejection of an unknown one, '
+             'config.precision = 32, fresnel_* on angle arrays and complex indices, layers up to 1000 um, angles to 0.1 % below critical and 89.9 deg. '
+             'CORRESPONDENCE ONLY: batched (1-D/N-D, real and absorbing) = per-element loop; independence of call history (the same caller-owned ndarray '
              'evaluated repeatedly - s/p/s, two wavelengths, batched then element views - equals calls on fresh copies and is left unchanged).'),
     'note': ('Trusted: Lean kernel + standard axioms; the ast->Lean translator for the arithmetic subset; NumPy matmul / '
              'broadcasting / complex arcsin, sin, cos; IEEE rounding (no theorem speaks about it). cos/sin of the angles and of beta, '
